@@ -50,6 +50,13 @@ def r01_2(ctx, rr):
         if ct != b.impl_trait:
             continue
         callee_name = strip_generics(F.callee(e) or "").split("::")[-1]
+        x0 = args[0]
+        while x0.get("k") == "AddrOf":
+            x0 = x0["e"]
+        if x0.get("k") == "Path" and x0.get("name") == "self" and callee_name != b.name:
+            # another method of the same trait on the very same object (`self.local_edge(sig)`): an implementation in
+            # terms of a sibling method, not a wrapper forwarding to an inner value
+            continue
         rr.instances += 1
         key = "%s:forwards-to-self" % short_fn(b.key)
         same = callee_name == b.name
